@@ -428,3 +428,8 @@ MUTANTS = [
     {"id": "finalise-constant-nlive", "file": _F, "old": 'self.state.increment(p["logL"], nlive=self.nlive - i)', "new": 'self.state.increment(p["logL"])', "expect": "live count decreases"},
     {"id": "finalise-skip-append", "file": _F, "old": "            self.nested_samples.append(p)\n        self.live_points = None", "new": "            if i:\n                self.nested_samples.append(p)\n        self.live_points = None", "expect": "paired once per remaining point"},
 ]
+
+CLAIM = {
+    "text": "Decides, on every run from the current source of NestedSampler, the structural clauses the live-set property rests on for every model/seed/history: strict `>` acceptance guards dominate insertion and the yielded replacement; remove-worst -> integrate -> record -> advance -> stamp -> insert -> record-index happen in that order, exactly once per iteration on every CFG path; only the named methods write the live array / dead list / index list; the searchsorted block-shift index arithmetic is an exact linear identity; the initial set is the sorted nlive finite draws; finalise consumes in ascending order with counts nlive..1. 71 rule instances, each flipped by a one-token edit the mocked unit tests keep green (21 such mutants in the thorough tier).",
+    "note": "Decides the shape of the code, not run-time values: proposals are assumed to return points whose logP/logL fields are truthful (in-package proposals are covered under C09), numpy searchsorted/sort semantics are trusted, NaN likelihood ordering and user Proposal subclasses are outside the analysed program.",
+}
